@@ -966,11 +966,14 @@ def load_own_findings(ctx):
 def run(ctx):
     ctx.cov['rule'] = (
         'histories on the real KmipEngine: (a) for each scenario (two symmetric keys from nothing; two keys, one active; an RSA pair; '
-        'one registered object of each of the 7 stored types beside an active key) ALL sequences of depth 2-3 (quick) / 3-4 (thorough) over a '
-        '14-letter alphabet of Create/Activate/Revoke(reason codes)/Destroy/Encrypt/Decrypt/Sign/SignatureVerify/MAC/DeriveKey/Get-with-wrapping; '
-        '(b) grid: stored type x state (each route into it) x usage-mask class (full / only the needed bit / lacking it / empty) x operation '
-        'x parameter variants; (c) seeded random histories of length 5-40 on up to 7 objects; (d) a corpus of directed histories. '
-        'A history is distinct by its operation sequence and non-trivial when at least one operation on an existing object succeeded.')
+        'one registered object of each of the 7 stored types beside an active key) ALL sequences of depth 2-3 (quick) / 3-4 (thorough) over an '
+        '11-14-letter alphabet of Create/Activate/Revoke(reason codes)/Destroy/Encrypt/Decrypt/Sign/SignatureVerify/MAC/DeriveKey/Get-with-wrapping; '
+        '(b) grid: stored type x state (each route into it) x usage-mask class (full / only the needed bit / lacking it / empty / all 22 bits / '
+        'all but the needed one) x operation x parameter variants x KMIP 1.2-2.0, with the same lifecycle operation first sent by a non-owner; '
+        '(c) one-request batches: create + lifecycle + use through the ID placeholder; (d) seeded random histories of length 5-40 on up to 7 '
+        'objects with batches, placeholder addressing, non-owner requests, dated revocations, clock jumps, engine restarts, version changes; '
+        '(e) a corpus of directed histories. A history is distinct by its operation sequence and non-trivial when at least one operation on an '
+        'existing object succeeded.')
     ctx.cov['trusted_extra'] = [
         'harness/c04.py: request builders, GetAttributes reader, classification of failures by result reason + message text',
         'the model covers one identity owning every object under the default policy; creation requests are well formed',
